@@ -516,8 +516,20 @@ def rng(a):
     return [c.v for c in a.fields[None]]
 
 
+StrCharBoundary = None
+
+
 def m_str_index(ex, args, callee):
     s, r = dv(args[0]), args[1]
+    if isinstance(s, SymStr):
+        # slicing an opaque string by byte offsets: panics when an offset is beyond the end or inside a multi-byte character
+        global StrCharBoundary
+        if StrCharBoundary is None: StrCharBoundary = z3.Function('str_is_char_boundary', StrSort, z3.IntSort(), z3.BoolSort())
+        n = StrLen(s.term)
+        offs = [o if z3.is_expr(o) and z3.is_int(o) else (z3.BV2Int(o) if z3.is_expr(o) else z3.IntVal(o)) for o in rng(r)]
+        ok = z3.And([z3.And(o <= n, StrCharBoundary(s.term, o)) for o in offs])
+        if not ex.truth(ok): raise Panic('byte index is out of bounds or not a char boundary')
+        return SymStr(z3.FreshConst(StrSort, 'slice'))
     if not isinstance(s, str): raise Unsupported('index of non-concrete str')
     b = s.encode()
     if 'RangeFrom' in callee: return b[rng(r)[0]:].decode()
@@ -599,6 +611,18 @@ def m_ends_with_char(ex, args, callee):
         last = s.bs[-1]
         return (last == code) if z3.is_expr(last) else (last == code)
     raise Unsupported(f'{callee}: string content is not concrete')
+
+
+def m_saturating_add(ex, args, callee):
+    a, b = dv(args[0]), dv(args[1])
+    bits = 32 if 'u32' in callee else 64
+    top = (1 << bits) - 1
+    if isinstance(a, int) and isinstance(b, int): return min(a + b, top)
+    if z3.is_bv(a) or z3.is_bv(b):
+        a = a if z3.is_bv(a) else z3.BitVecVal(a, bits); b = b if z3.is_bv(b) else z3.BitVecVal(b, bits)
+        return z3.If(z3.BVAddNoOverflow(a, b, False), a + b, z3.BitVecVal(top, bits))
+    r = a + b
+    return z3.If(r > top, z3.IntVal(top), r)
 
 
 def need_str(f):
@@ -830,6 +854,7 @@ BASE_MODELS = [
     (r'^std::any::type_name::|^type_name::', lambda ex, a, c: 'type-name'),
     (r'^<[ui](8|16|32|64|128|size) as (From|TryFrom)<[ui](8|16|32|64|128|size)>>::(from|try_from)$', m_int_from),
     (r'NonZero::<.*>::get$', ident), (r'NonZero::<.*>::new_unchecked$', ident),
+    (r'^(core::num::<impl )?(usize|u64|u32)>?::saturating_add$|num::<impl (usize|u64|u32)>::saturating_add$', lambda ex, a, c: m_saturating_add(ex, a, c)),
     (r'NonZero::<.*>::new$', lambda ex, a, c: ex.none() if ex.truth(dv(a[0]) == 0) else ex.some(dv(a[0]))),
     (r'panic_fmt|^panic$|panicking::panic|^core::panicking|^std::rt::begin_panic|unwrap_failed|expect_failed', m_panic),
     (r' as Into<.*>>::into$', None),      # placeholder replaced below (identity only for T: Into<T>)
